@@ -74,7 +74,7 @@ func (n NativeRemoveFn) Call(i *Interpreter, arguments []interface{}) (interface
 	}
 
 	// Ensure the index is within bounds
-	if index < 0 || int(index) >= len(array) {
+	if index < 0 || index >= int64(len(array)) {
 		return nil, fmt.Errorf("array index out of bounds")
 	}
 
